@@ -39,6 +39,7 @@ def plan(tier, seed):
 def check_frame_origin(stackscope, weakref, fr, owner, res, where, interp, must_have_owner):
     o = fr.origin
     problems = []
+    res.evaluations += 1   # an evaluation = one extracted frame whose origin contract is checked
     res.count("origin_checked")
     if must_have_owner and o is not owner:
         problems.append("origin is %r, the frame belongs to %r" % (o, owner))
